@@ -1351,6 +1351,21 @@ func (c *copyCtx) checkArrayCopy(src *atree.Array, srcTI uint64, dst atree.Addre
 	if arrFingerprint(src) != srcFp {
 		r.viol("C17: mutating the copy changed the source", "")
 	}
+	// independence 1b: retype the copy — the source keeps its type (and vice versa afterwards)
+	{
+		newTI := srcTI + 7
+		if err := cp.SetType(testutils.NewSimpleTypeInfo(newTI)); err != nil {
+			r.viol("C17: SetType on the copy failed", err.Error())
+			return nil
+		}
+		if t, ok := src.Type().(testutils.SimpleTypeInfo); !ok || t.Value() != srcTI {
+			r.viol("C17: changing the type of the copy changed the type of the source", fmt.Sprint(src.Type()))
+		}
+		if err := cp.SetType(testutils.NewSimpleTypeInfo(srcTI)); err != nil {
+			r.viol("C17: SetType on the copy failed", err.Error())
+			return nil
+		}
+	}
 	// independence 2: mutate the source
 	if mutateSrc != nil {
 		cpFp := arrFingerprint(cp)
@@ -1779,6 +1794,25 @@ func (r *batchRun) copyHandBuilt(hr *Rng, which int) {
 		_, err = m.Set(testutils.CompareValue, testutils.GetHashInput, testutils.Uint64Value(2), v)
 		must(err)
 		c.checkMapCopy(m, 50, addr, nil, false)
+		// keys colliding on EVERY digest level (last-level list mode) with a reference in a NON-first entry
+		table := map[uint64][mpeLevels]uint64{}
+		cm, err := atree.NewMap(st, addr, &mpeBuilder{table: table}, ti(51))
+		must(err)
+		nRoots++
+		nk := 3 + hr.Intn(3)
+		bigAt := 1 + hr.Intn(nk-1)
+		for k := 0; k < nk; k++ {
+			table[uint64(100+k)] = [mpeLevels]uint64{}
+			var val atree.Value = testutils.Uint64Value(uint64(k))
+			if k == bigAt {
+				val = testutils.NewStringValue(randStr(hr, int(atree.MaxInlineMapElementSize())+30))
+			}
+			_, err = cm.Set(testutils.CompareValue, testutils.GetHashInput, testutils.Uint64Value(uint64(100+k)), val)
+			must(err)
+		}
+		// the copy must not be offered (a reference sits in the group); checked once all entries are in,
+		// because checkMapCopy would give an offered copy the default digester
+		c.checkMapCopy(cm, 51, addr, nil, false)
 	}
 }
 
